@@ -157,8 +157,50 @@ func interopSuite() Suite {
 	}
 }
 
+func cmdSuite(name string, gen func(r *Rng, i int, tier string) []Op, quick, thorough int, post PostCheck) Suite {
+	return Suite{
+		Name:   name,
+		Post:   post,
+		MkExec: func() Executor { return NewImplCmd() },
+		Canon:  canonCmd,
+		Gen:    gen,
+		Cases: func(tier string) int {
+			if tier == "thorough" {
+				return thorough
+			}
+			return quick
+		},
+	}
+}
+
 func suitesFor(prop string) []Suite {
 	switch prop {
+	case "C08":
+		return []Suite{cmdSuite("copy", func(r *Rng, i int, tier string) []Op {
+			if i%4 == 3 {
+				return genCopyGlobCase(r)
+			}
+			return genCopyCase(r)
+		}, 240, 4000, postCopy)}
+	case "C09":
+		return []Suite{cmdSuite("diff", func(r *Rng, i int, tier string) []Op {
+			if i%4 == 3 {
+				return genCopyGlobCase(r)
+			}
+			return genDiffCase(r)
+		}, 240, 4000, postDiff)}
+	case "C10":
+		return []Suite{cmdSuite("sum", func(r *Rng, i int, tier string) []Op { return genSumCase(r, "C10") }, 200, 3000, postAny)}
+	case "C11":
+		return []Suite{cmdSuite("sumcopy", func(r *Rng, i int, tier string) []Op { return genSumCase(r, "C11") }, 200, 3000, postSumCopy)}
+	case "C12":
+		return []Suite{cmdSuite("remote", func(r *Rng, i int, tier string) []Op { return genRemoteCase(r) }, 120, 2000, postRemote)}
+	case "C18":
+		return []Suite{cmdSuite("view", func(r *Rng, i int, tier string) []Op { return genViewCase(r) }, 240, 4000, postView)}
+	case "C20":
+		return []Suite{cmdSuite("generate", func(r *Rng, i int, tier string) []Op { return genGenerateCase(r) }, 60, 1500, postAny)}
+	case "C16":
+		return []Suite{cmdSuite("loud", func(r *Rng, i int, tier string) []Op { return genLoudCase(r) }, 400, 6000, postAny)}
 	case "C06":
 		return []Suite{libSuite(prop), interopSuite()}
 	case "C19":
@@ -175,4 +217,10 @@ func suitesFor(prop string) []Suite {
 	return nil
 }
 
-func runChildOther(role string, args []string) bool { return false }
+func runChildOther(role string, args []string) bool {
+	if role == "server" {
+		runServerChild(args)
+		return true
+	}
+	return false
+}
